@@ -149,6 +149,8 @@ def cap(text):
 
 
 def shard(ctx):
+    if ctx.shard == 3:
+        annotation_spellings(ctx)
     if ctx.shard < 3:
         long_lived_function(ctx, ctx.shard, ctx.budget(2500 * 16,
                                                        10000 * 16))
@@ -207,6 +209,44 @@ def long_lived_function(ctx, which, n_calls):
     ctx.case(['long-lived', which], True)
 
 
+def annotation_spellings(ctx):
+    """Parameter annotations the library lists as supported in spellings
+    the model generator does not produce: a bare None (for NoneType), alone
+    and inside generics."""
+    from typing import Any, Dict, List, Optional, Union
+
+    class N1:
+        def __init__(self, x: None, y: int = 1) -> None:
+            self.x = x
+
+    class N2:
+        def __init__(self, x: Union[None, int], y: List[None],
+                     z: Dict[str, None] = None) -> None:
+            self.x = x
+
+    class N3:
+        def __init__(self, x: type(None)) -> None:
+            self.x = x
+    docs = ['x: null\n', 'x: ~\ny: 2\n', 'x:\n', 'x: 1\n', 'x: [1]\n', '{}\n',
+            'x: null\ny: [~, null]\n', 'x: 3\ny: []\nz: {a: ~}\n',
+            'x: null\ny: [1]\n', 'x: !!null ""\n', 'x: "null"\n']
+    for cls in (N1, N2, N3):
+        load = yatiml.load_function(cls)
+        for text in docs:
+            kind, x = H.run_load(load, text)
+            ctx.count('annotation_spelling_loads')
+            if kind == 'err' and not isinstance(
+                    x, (yatiml.RecognitionError, yaml.YAMLError)):
+                ctx.violation(
+                    'C08 escape %s %s feature=annotation-bare-None' % (
+                        type(x).__name__, H.exc_site(x)),
+                    'class %s (parameter annotated None / NoneType): '
+                    'document %r raised %s: %s' % (
+                        cls.__name__, text, type(x).__name__, str(x)[:200]),
+                    {'annotation_spellings': True, 'text': text})
+    ctx.case(['annotation-spellings'], True)
+
+
 def on_shard_crash(i, rc, tail, problems):
     # a dying shard is a witness of a crash inside load (C08/C18); it is
     # reported as inconclusive with the faulthandler tail so that it is seen
@@ -214,7 +254,9 @@ def on_shard_crash(i, rc, tail, problems):
 
 
 def replay(ctx, case):
-    if case.get('long_lived'):
+    if case.get('annotation_spellings'):
+        annotation_spellings(ctx)
+    elif case.get('long_lived'):
         long_lived_function(ctx, case['long_lived'][0],
                             case['long_lived'][1] + 10)
     elif case.get('fault'):
